@@ -1,9 +1,9 @@
 SPECIFICATION Spec
 CONSTANTS
   NF = 2
-  MaxOps = 4
-  MaxWrites = 2
-  MaxPanics = 0
+  MaxOps = 5
+  MaxWrites = 1
+  MaxPanics = 1
   Emit = FALSE
   Mut = "none"
   Fb = FALSE
